@@ -4,7 +4,9 @@ FAMILY = "control"
 RULE = ("mode 3: a real Node behind the real ControlServer::Impl::handle_client (socketpair), daemon token absent / 'secret' / "
         "empty / 64 bytes; requests STORE, FETCH streamed to the client (for a manifest the node has never seen), FETCH "
         "written to a daemon-side OUT path, STOP; TOKEN header absent, exact, wrong, a prefix, one byte longer, other "
-        "letter case, empty, with surrounding blanks. Observed besides the response: stored chunks, registered manifests "
+        "letter case, empty, with surrounding blanks, the token followed by 1..1024 more bytes (256, 512 included), cut short, "
+        "one byte changed at either end, doubled; configured tokens of 1, 255, 256, 257, 300 bytes; TOKEN right after COMMAND "
+        "or as the last header; FETCH to an OUT path also with a non-streaming STREAM header (0, no, empty, daemon). Observed besides the response: stored chunks, registered manifests "
         "(friend class), the OUT file, the stop callback and the transport-stopped flag. Oracle: with a configured token, a "
         "request without exactly that token gets an authentication error and NONE of those changed; with the exact token (or "
         "no configured token) the command takes effect. non-trivial = a configured token; distinct = distinct outputs")
@@ -31,6 +33,21 @@ def generate(rng, tier):
         for p in pres:
             for cmd in range(4):
                 cases.append({"ints": [3] + opt(c) + opt(p) + [cmd], "tag": "gate"})
+        if c:
+            # the exact token followed by k more bytes (also k = 256, 512: a length difference that vanishes in 8 bits), the
+            # token cut short, one byte changed at either end, TOKEN as the last header, non-streaming STREAM values with OUT
+            more = [c + b"x" * k for k in (1, 2, 16, 64, 128, 255, 256, 257, 512, 768, 1024)]
+            more += [c[:k] for k in range(0, len(c), max(1, len(c) // 4))]
+            more += [bytes([c[0] ^ 1]) + c[1:], c[:-1] + bytes([c[-1] ^ 0x80]), c[::-1], c + c, c]
+            for p in more:
+                cmd = rng.randrange(4)
+                cases.append({"ints": [3] + opt(c) + opt(p) + [cmd, rng.randrange(2), rng.randrange(5)], "tag": "gate-lengths"})
+                cases.append({"ints": [3] + opt(c) + opt(p) + [2, 1, rng.randrange(1, 5)], "tag": "gate-out-nostream"})
+    for ln in (1, 255, 256, 257, 300):
+        c = bytes(rng.randrange(33, 127) for _ in range(ln))
+        for p in (c, c[:-1], c + b"y", c + b"y" * 256, c[:1], c[:ln - 256] if ln > 256 else b""):
+            for cmd in range(4):
+                cases.append({"ints": [3] + opt(c) + opt(p) + [cmd, cmd % 2, 0], "tag": "gate-long-token"})
     return cases
 
 
